@@ -364,12 +364,12 @@ fn mapping_hash(a: &mut Asm, r: &mut Rng) {
 }
 
 /// Stack: [.., slot] -> [.., keccak(slot) + index].
-fn array_hash(a: &mut Asm, r: &mut Rng, slot_const: Option<u64>) {
+fn array_hash(a: &mut Asm, r: &mut Rng, slot_const: Option<U256>) {
     match slot_const {
         Some(s) if r.chance(1, 3) => {
             // The compiler's pre-folded form: PUSH32 keccak(slot).
             a.op(op::POP);
-            a.push(keccak_word(U256::from(s)));
+            a.push(keccak_word(s));
         }
         _ => {
             a.op(op::PUSH0).op(op::MSTORE);
@@ -392,22 +392,22 @@ fn array_hash(a: &mut Asm, r: &mut Rng, slot_const: Option<u64>) {
 
 /// Uses the value on top of the stack in a way that tells the type checker
 /// something. Net -1.
-fn typed_use(a: &mut Asm, r: &mut Rng, scratch_slot: u64) {
+fn typed_use(a: &mut Asm, r: &mut Rng, scratch_slot: U256) {
     match r.below(12) {
         0 => {
             // as address: mask and store elsewhere
             a.push(mask(160)).op(op::AND);
-            a.push_u(u128::from(scratch_slot)).op(op::SSTORE);
+            a.push(scratch_slot).op(op::SSTORE);
         }
         1 => {
             // as bool
             a.op(op::ISZERO).op(op::ISZERO);
-            a.push_u(u128::from(scratch_slot)).op(op::SSTORE);
+            a.push(scratch_slot).op(op::SSTORE);
         }
         2 => {
             // arithmetic
             a.push_u(1).op(op::ADD);
-            a.push_u(u128::from(scratch_slot)).op(op::SSTORE);
+            a.push(scratch_slot).op(op::SSTORE);
         }
         3 => {
             // signed comparison
@@ -419,7 +419,7 @@ fn typed_use(a: &mut Asm, r: &mut Rng, scratch_slot: u64) {
         }
         5 => {
             // plain copy into another slot
-            a.push_u(u128::from(scratch_slot)).op(op::SSTORE);
+            a.push(scratch_slot).op(op::SSTORE);
         }
         6 => {
             // as call target
@@ -438,14 +438,14 @@ fn typed_use(a: &mut Asm, r: &mut Rng, scratch_slot: u64) {
                 a.push_u(u128::from(k)).op(op::SHR);
             }
             a.push(mask(w)).op(op::AND);
-            a.push_u(u128::from(scratch_slot)).op(op::SSTORE);
+            a.push(scratch_slot).op(op::SSTORE);
         }
         8 => {
             // byte-level mask in the middle of the word
             let lo = 8 * r.below(20) as u32;
             let w = 8 * (1 + r.below(8)) as u32;
             a.push(mask(w) << lo).op(op::AND);
-            a.push_u(u128::from(scratch_slot)).op(op::SSTORE);
+            a.push(scratch_slot).op(op::SSTORE);
         }
         9 => {
             // equality with caller
@@ -454,7 +454,7 @@ fn typed_use(a: &mut Asm, r: &mut Rng, scratch_slot: u64) {
         10 => {
             // selector
             a.push_u(224).op(op::SHR).push(mask(32)).op(op::AND);
-            a.push_u(u128::from(scratch_slot)).op(op::SSTORE);
+            a.push(scratch_slot).op(op::SSTORE);
         }
         _ => {
             a.op(op::POP);
@@ -463,29 +463,29 @@ fn typed_use(a: &mut Asm, r: &mut Rng, scratch_slot: u64) {
 }
 
 /// One storage fragment on slot `s`; stack-neutral.
-fn storage_fragment(a: &mut Asm, r: &mut Rng, s: u64, slots: &[u64]) {
+fn storage_fragment(a: &mut Asm, r: &mut Rng, s: U256, slots: &[U256]) {
     let other = *r.pick(slots);
     match r.below(14) {
         0 | 1 => {
             // direct write
             typed_value(a, r);
-            a.push_u(u128::from(s)).op(op::SSTORE);
+            a.push(s).op(op::SSTORE);
         }
         2 | 3 => {
             // direct read + use
-            a.push_u(u128::from(s)).op(op::SLOAD);
+            a.push(s).op(op::SLOAD);
             typed_use(a, r, other);
         }
         4 => {
             // dynamic array element write
             typed_value(a, r);
-            a.push_u(u128::from(s));
+            a.push(s);
             array_hash(a, r, Some(s));
             a.op(op::SSTORE);
         }
         5 => {
             // dynamic array element read
-            a.push_u(u128::from(s));
+            a.push(s);
             array_hash(a, r, Some(s));
             a.op(op::SLOAD);
             typed_use(a, r, other);
@@ -493,20 +493,20 @@ fn storage_fragment(a: &mut Asm, r: &mut Rng, s: u64, slots: &[u64]) {
         6 => {
             // mapping write
             typed_value(a, r);
-            a.push_u(u128::from(s));
+            a.push(s);
             mapping_hash(a, r);
             a.op(op::SSTORE);
         }
         7 => {
             // mapping read
-            a.push_u(u128::from(s));
+            a.push(s);
             mapping_hash(a, r);
             a.op(op::SLOAD);
             typed_use(a, r, other);
         }
         8 => {
             // nested mapping read/write
-            a.push_u(u128::from(s));
+            a.push(s);
             mapping_hash(a, r);
             mapping_hash(a, r);
             if r.chance(1, 2) {
@@ -522,7 +522,7 @@ fn storage_fragment(a: &mut Asm, r: &mut Rng, s: u64, slots: &[u64]) {
             let w = *r.pick(&[8u32, 16, 32, 64, 128, 160]);
             let k = *r.pick(&[0u32, 8, 16, 32, 64, 96, 160]);
             let k = if k + w > 256 { 0 } else { k };
-            a.push_u(u128::from(s)).op(op::SLOAD);
+            a.push(s).op(op::SLOAD);
             a.push(!(mask(w) << k)).op(op::AND);
             typed_value(a, r);
             a.push(mask(w)).op(op::AND);
@@ -535,29 +535,29 @@ fn storage_fragment(a: &mut Asm, r: &mut Rng, s: u64, slots: &[u64]) {
                 }
             }
             a.op(op::OR);
-            a.push_u(u128::from(s)).op(op::SSTORE);
+            a.push(s).op(op::SSTORE);
         }
         10 => {
             // masked copy between slots
             let bits = *r.pick(&[160u32, 160, 8, 64, 128]);
-            a.push_u(u128::from(s)).op(op::SLOAD).push(mask(bits)).op(op::AND);
-            a.push_u(u128::from(other)).op(op::SSTORE);
+            a.push(s).op(op::SLOAD).push(mask(bits)).op(op::AND);
+            a.push(other).op(op::SSTORE);
         }
         11 => {
             // array length use: sload(s) as a bound
             a.push_u(4).op(op::CALLDATALOAD);
-            a.push_u(u128::from(s)).op(op::SLOAD).op(op::GT).op(op::POP);
+            a.push(s).op(op::SLOAD).op(op::GT).op(op::POP);
         }
         12 => {
             // read-mask-write cycle through another slot
-            a.push_u(u128::from(other)).op(op::SLOAD).push(mask(160)).op(op::AND);
-            a.push_u(u128::from(s)).op(op::SSTORE);
-            a.push_u(u128::from(s)).op(op::SLOAD).push(mask(160)).op(op::AND);
-            a.push_u(u128::from(other)).op(op::SSTORE);
+            a.push(other).op(op::SLOAD).push(mask(160)).op(op::AND);
+            a.push(s).op(op::SSTORE);
+            a.push(s).op(op::SLOAD).push(mask(160)).op(op::AND);
+            a.push(other).op(op::SSTORE);
         }
         _ => {
             // copy through memory
-            a.push_u(u128::from(s)).op(op::SLOAD);
+            a.push(s).op(op::SLOAD);
             a.push_u(0x80).op(op::MSTORE);
             a.push_u(0x80).op(op::MLOAD);
             typed_use(a, r, other);
@@ -572,9 +572,16 @@ fn storage_fragment(a: &mut Asm, r: &mut Rng, s: u64, slots: &[u64]) {
 pub fn gen_storage(r: &mut Rng) -> Vec<u8> {
     let mut a = Asm::new();
     let n_slots = 1 + r.usize_below(3);
-    let mut slots: Vec<u64> = Vec::new();
+    let mut slots: Vec<U256> = Vec::new();
     while slots.len() < n_slots {
-        let s = if r.chance(5, 6) { r.below(6) } else { r.below(40) };
+        let s = match r.below(24) {
+            0..=18 => U256::from(r.below(6)),
+            19 | 20 => U256::from(r.below(40)),
+            // EIP-1967 implementation / admin slots, and other large keys
+            21 => U256::from_str_hex("0x360894a13ba1a3210667c828492db98dca3e2076cc3735a920a3ca505d382bbc").unwrap(),
+            22 => U256::from_str_hex("0xb53127684a568b3173ae13b9f8a6016e243e63b6e8ee1178d6a717850b5d6103").unwrap(),
+            _ => (U256::ONE << (64 + 8 * r.below(24) as u32)) + U256::from(r.below(3)),
+        };
         if !slots.contains(&s) {
             slots.push(s);
         }
